@@ -60,7 +60,7 @@ def main(tier, seed):
     run.notes["collections_with_snapshot"] = ncoll
     run.notes["objects_freed_in_them"] = nfree
     if ncoll < 50:
-        raise ToolError("too few collections recorded: %d" % ncoll)
+        run.thin_corpus("too few collections recorded: %d" % ncoll)
     validate_traces(run, "VmHeapTrace.tla", {}, ["Safe"], hfiles, "heap-trace", timeout=2400,
                     site_of=lambda m: str(m.get("why")))
     for v in run.viol:
